@@ -14,6 +14,7 @@ RULE = ("document tuples generated from the documented DSL: element trees to dep
         "tuple describes: resolved element names, attributes, namespace declarations, child order, text with "
         "whitespace-only segments ignored on both sides. A sample also goes through `out xml` with the real CLI. "
         "distinct = distinct document tuples; non-trivial = >= 2 elements or an attribute/text needing escaping.")
+RULE += (" " + 'Also: declarations naming an encoding other than UTF-8 (either an error or bytes that really are in that encoding).')
 
 NAMES = ["a", "b", "item", "Top", "x-1", "x_y", "n.m", "é", "_u", "data"]
 PREFIXES = ["p", "ns1", "my"]
